@@ -724,7 +724,7 @@ func confirmRace(path string) (bool, string) {
 	for k := 0; k < 15; k++ {
 		cmd := exec.Command("timeout", "60", raceBin, "-test.run", "^TestReplay$", "-test.v", "-test.count=1")
 		cmd.Dir = harnessDir
-		cmd.Env = append(os.Environ(), "SYM_REPLAY="+path)
+		cmd.Env = append(os.Environ(), "SYM_REPLAY="+path, "SYM_NOSCHED=1")
 		out, _ := cmd.CombinedOutput()
 		if strings.Contains(string(out), "DATA RACE") {
 			return true, "go test -race reports DATA RACE"
